@@ -33,7 +33,8 @@ Proof. intros. unfold getc. apply nth_overflow. auto. Qed.
 (* ---------------------------------------------------------------- soft changes *)
 Definition psoft (x y : conn) : Prop :=
   c_addr y = c_addr x /\
-  (c_pc y = c_pc x \/ (c_pc x = PSem WPending /\ c_pc y = PSem WCancelled)) /\
+  (c_pc y = c_pc x \/ (c_pc x = PSem WPending /\ c_pc y = PSem WCancelled) \/
+   (c_pc x = PDrainLock WPending /\ c_pc y = PDrainLock WCancelled)) /\
   c_task y = c_task x /\ c_entry y = c_entry x /\ c_writer y = c_writer x.
 
 Lemma psoft_refl : forall x, psoft x x.
@@ -43,7 +44,8 @@ Lemma psoft_trans : forall x y z, psoft x y -> psoft y z -> psoft x z.
 Proof.
   unfold psoft; intros x y z (A1 & P1 & T1 & E1 & W1) (A2 & P2 & T2 & E2 & W2).
   repeat split; try congruence.
-  destruct P1 as [P1 | [P1 P1']], P2 as [P2 | [P2 P2']]; try (left; congruence); try (right; split; congruence).
+  destruct P1 as [P1 | [[P1 P1'] | [P1 P1']]], P2 as [P2 | [[P2 P2'] | [P2 P2']]];
+    try (left; congruence); try (right; left; split; congruence); try (right; right; split; congruence).
 Qed.
 
 Definition isnew (y : conn) : Prop := exists a, psoft (new_conn a) y.
@@ -127,7 +129,7 @@ Proof. intros. constructor; simpl; auto. apply lrel_upd; auto. exists []. auto. 
 Lemma psoft_cancel : forall x, psoft x (cancel_conn x).
 Proof.
   intros. unfold cancel_conn. destruct (is_done (c_pc x)); [apply psoft_refl|].
-  unfold psoft; simpl. repeat split; auto. destruct (c_pc x); auto. destruct w; auto.
+  unfold psoft; simpl. repeat split; auto. destruct (c_pc x); auto; destruct w; auto.
 Qed.
 
 Lemma frame_cancel : forall s c, frame s (cancel s c).
@@ -187,15 +189,11 @@ Proof.
   eapply frame_trans; [exact F1|]. constructor; simpl; auto using lrel_refl. exists []; auto.
 Qed.
 
-Lemma frame_drain_from : forall n s i, frame s (drain_from s n i).
-Proof.
-  induction n; simpl; intros; [apply frame_refl|].
-  eapply frame_trans; [|apply IHn].
-  destruct (_ && _ && _ && _); auto using frame_refl, frame_cancel.
-Qed.
+Lemma frame_set_lock : forall s b q, frame s (set_lock s b q).
+Proof. intros. constructor; simpl; auto using lrel_refl. exists []; auto. Qed.
 
-Lemma frame_drain : forall s, frame s (drain_writers s).
-Proof. intros. apply frame_drain_from. Qed.
+Lemma frame_drain_error : forall s d, frame s (drain_error s d).
+Proof. intros. unfold drain_error. destruct (c_task (getc s d)); auto using frame_refl, frame_cancel. Qed.
 
 Lemma frame_cancel_all : forall n s i, frame s (cancel_all s n i).
 Proof.
